@@ -201,6 +201,9 @@ func runC15(t *simrt.Tape, o Opts) Outcome {
 	} else {
 		n = 1 + t.Choose(200, "len")
 	}
+	if !swept && t.Choose(4, "concurrent-clients") == 1 {
+		return runC15Concurrent(t, o, pi, ci, syn, expOn)
+	}
 	cfg := schedCfg(t, o, !syn && t.Choose(2, "schedmix") == 1)
 	var st Stats
 	st.Oracle = map[string]int{}
@@ -490,4 +493,197 @@ func panicWhere(stack string) string {
 		}
 	}
 	return "?"
+}
+
+// runC15Concurrent: 2-4 client tasks use one cache at once. Under concurrency only the
+// order-independent obligations are checked: no panic, no deadlock, never more retrievable entries
+// than the capacity, Len() equal to the number of retrievable entries at quiescence, and conservation
+// of eviction notifications: every notification carries a (key, value) that was set, no (key, value)
+// is notified twice, nothing still retrievable has been notified, and Close notifies exactly what was
+// still retrievable.
+func runC15Concurrent(t *simrt.Tape, o Opts, pi, ci int, syn, expOn bool) Outcome {
+	cfg := schedCfg(t, o, true)
+	var st Stats
+	st.Oracle = map[string]int{}
+	var viols []world.Violation
+	violate := func(sig, format string, a ...any) {
+		if len(viols) == 0 {
+			viols = append(viols, world.Violation{Prop: "C15", Rule: strings.SplitN(sig, "/", 2)[0], Signature: "C15/" + sig, Msg: fmt.Sprintf(format, a...)})
+		}
+	}
+	policy := c15Policies[pi]
+	capn := c15Caps[ci%12] // small capacities: contention on few slots
+	nkeys := 2 + t.Choose(5, "nkeys")
+	leaving := 0
+	desc := fmt.Sprintf("policy %s cap %d sync %v expiry %v, concurrent clients", policy, capn, syn, expOn)
+	s := simrt.Run(t, cfg, func(s *simrt.Sim) {
+		type kv struct {
+			k string
+			v int
+		}
+		notified := map[kv]int{}
+		var order []kv
+		b := cache.New[string, int](capn).WithPolicy(policy).WithClock(simClock{s}).WithEvictFunc(func(k string, v int) {
+			notified[kv{k, v}]++
+			order = append(order, kv{k, v})
+		})
+		if expOn {
+			b = b.WithExpiry(10 * time.Second)
+		}
+		if syn {
+			b = b.Synchronous()
+		}
+		c := b.Build()
+		set := map[kv]bool{}
+		nextVal := 0
+		nclients := 2 + t.Choose(3, "nclients")
+		var tasks []*simrt.Task
+		panicked := ""
+		for ci := 0; ci < nclients; ci++ {
+			type step struct {
+				kind int
+				key  string
+				adv  time.Duration
+			}
+			n := 3 + t.Choose(12, "len")
+			plan := make([]step, n)
+			for i := range plan {
+				r := t.Choose(10, "kind")
+				st := step{key: fmt.Sprintf("k%d", t.Choose(nkeys, "key"))}
+				switch {
+				case r < 4:
+					st.kind = c15Set
+				case r < 8:
+					st.kind = c15Get
+				case r < 9:
+					st.kind = c15Delete
+				default:
+					st.kind = c15Advance
+					st.adv = []time.Duration{time.Second, 10 * time.Second, 11 * time.Second}[t.Choose(3, "adv")]
+				}
+				plan[i] = st
+			}
+			tasks = append(tasks, s.Go("client", func() {
+				defer func() {
+					if r := recover(); r != nil {
+						panicked = fmt.Sprintf("%v @ %s", r, panicWhere(string(debug.Stack())))
+					}
+				}()
+				for _, stp := range plan {
+					if s.Ending() || panicked != "" {
+						return
+					}
+					switch stp.kind {
+					case c15Set:
+						nextVal++
+						v := nextVal
+						set[kv{stp.key, v}] = true
+						c.Set(stp.key, v)
+					case c15Get:
+						if v, ok := c.Get(stp.key); ok && !set[kv{stp.key, v}] {
+							violate("get-unknown-value/"+string(policy), "%s: Get(%s) returned %d which was never set for that key", desc, stp.key, v)
+						}
+					case c15Delete:
+						c.Delete(stp.key)
+					case c15Advance:
+						s.Advance(stp.adv)
+					}
+				}
+			}))
+		}
+		for _, tk := range tasks {
+			s.Join(tk)
+		}
+		if panicked != "" {
+			violate("panic@"+panicked[strings.LastIndex(panicked, "@ ")+2:], "%s: a cache operation panicked under concurrent use: %s", desc, panicked)
+			return
+		}
+		if !syn {
+			s.Idle()
+		}
+		// quiescent audit
+		count(st.Oracle, "concurrent-quiescent-audit")
+		retrievable := map[kv]bool{}
+		for i := 0; i < nkeys; i++ {
+			k := fmt.Sprintf("k%d", i)
+			if v, ok := c.Get(k); ok {
+				retrievable[kv{k, v}] = true
+			}
+		}
+		if !syn {
+			s.Idle()
+		}
+		if len(retrievable) > capn {
+			violate("over-capacity/"+string(policy), "%s: %d entries are retrievable, capacity is %d", desc, len(retrievable), capn)
+			return
+		}
+		if n := c.Len(); n != len(retrievable) {
+			violate("len/"+string(policy), "%s: Len()=%d but %d entries are retrievable", desc, n, len(retrievable))
+			return
+		}
+		for e, n := range notified {
+			if !set[e] {
+				violate("evicted-unknown-entry/"+string(policy), "%s: eviction notification for %s=%d which was never set", desc, e.k, e.v)
+				return
+			}
+			if n > 1 {
+				violate("notified-twice/"+string(policy), "%s: entry %s=%d was notified %d times", desc, e.k, e.v, n)
+				return
+			}
+			if retrievable[e] {
+				violate("notified-while-retrievable/"+string(policy), "%s: entry %s=%d is still retrievable but its eviction was already notified", desc, e.k, e.v)
+				return
+			}
+		}
+		leaving = len(notified)
+		before := len(order)
+		c.Close()
+		if !syn {
+			s.Idle()
+		}
+		count(st.Oracle, "concurrent-close-drain")
+		closed := map[kv]bool{}
+		for _, e := range order[before:] {
+			closed[e] = true
+		}
+		for e := range retrievable {
+			if !closed[e] {
+				violate("close-missed-entry/"+string(policy), "%s: Close did not notify the retrievable entry %s=%d", desc, e.k, e.v)
+				return
+			}
+		}
+		for e := range closed {
+			if !retrievable[e] {
+				violate("close-notified-unknown/"+string(policy), "%s: Close notified %s=%d which was not retrievable", desc, e.k, e.v)
+				return
+			}
+		}
+		for e, n := range notified {
+			if n > 1 {
+				violate("notified-twice/"+string(policy), "%s: entry %s=%d was notified %d times", desc, e.k, e.v, n)
+				return
+			}
+		}
+	})
+	out := Outcome{Viols: viols}
+	st.Nontrivial = leaving > 0
+	st.Class = fmt.Sprintf("conc|%s/%d/%v/%v|%x", policy, capn, syn, expOn, s.TraceHash)
+	st.Sample = map[string]any{"mode": "concurrent clients", "policy": string(policy), "capacity": capn, "synchronous": syn, "expiry": expOn, "switches": s.Switches}
+	fo := finish(s, nil, st, true)
+	out.Stats, out.Infra, out.Log = fo.Stats, fo.Infra, fo.Log
+	if f := s.Failure(); f != nil {
+		switch f.Kind {
+		case simrt.FailDeadlock:
+			out.Infra = nil
+			if len(out.Viols) == 0 {
+				out.Viols = append(out.Viols, world.Violation{Prop: "C15", Rule: "deadlock", Signature: "C15/deadlock/" + string(policy), Msg: desc + ": all tasks blocked: " + f.Msg})
+			}
+		case simrt.FailPanic:
+			out.Infra = nil
+			if len(out.Viols) == 0 {
+				out.Viols = append(out.Viols, world.Violation{Prop: "C15", Rule: "panic", Signature: "C15/goroutine-panic", Msg: f.Msg + "\n" + f.Stack})
+			}
+		}
+	}
+	return out
 }
